@@ -1951,6 +1951,9 @@ class _Gen:
         r = self.rng
         self.fn_building += 1
         in_kinds = r.choice([["F23"], ["F23", "F3"], ["F3"], ["F33", "F3"], ["F23", "F0"], ["I3"], ["F3", "F3"]])
+        # separate stream: more two-operand functions over one kind (their calls can be repeated with swapped operands)
+        if random.Random(f"kinds-{self.n}-{self.total_nodes}-{len(self.funcs)}").random() < 0.3:
+            in_kinds = [in_kinds[0], in_kinds[0]]
         attrs = r.choice([[], [], [("alpha", "f")], [("flag", "i")], [("alpha", "f"), ("flag", "i")]])
         attrs = [(n, t, (r.choice([0.5, 1.5]) if t == "f" else r.choice([0, 1])) if r.random() < 0.6 else None)
                  for n, t in attrs]
@@ -1980,6 +1983,14 @@ class _Gen:
             r.shuffle(outs)
             self.feat.add("fn_passthrough_output")
         fn = _Fn(self.fresh("Fn"), in_kinds, [k for _, k in outs], attrs)
+        # separate stream (recorded seeds unchanged): a model-local function that carries the NAME of a standard operator
+        # (domain "local"; seeded C05-r1: an operator table keyed by op_type alone treats local::Add as commutative)
+        rs = random.Random(f"std-{fn.name}-{self.total_nodes}-{ins[0][0]}-{len(fs.recs)}")
+        if rs.random() < (0.7 if len(in_kinds) == 2 and in_kinds[0] == in_kinds[1] else 0.3):
+            free = [n for n in ("Add", "Mul", "Equal", "Sub", "Max", "Xor", "Or") if all(f.name != n for f in self.funcs)]
+            if free:
+                fn.name = rs.choice(free)
+                self.feat.add("fn_std_op_name")
         fop = self.opset  # the checker rejects a function importing another version of a domain than the model
         imports = [oh.make_opsetid("", fop)]
         if fs.uses_local:
@@ -2024,6 +2035,12 @@ class _Gen:
                 self.feat.add("call_omits_attr")
         self.feat.add("call")
         self.emit(sc, fn.name, ins, fn.out_kinds, attrs, domain="local")
+        # separate stream: the same call again with its two operands swapped (same attributes)
+        if len(ins) == 2 and fn.in_kinds[0] == fn.in_kinds[1] and ins[0] != ins[1]:
+            rs = random.Random(f"swap-{fn.name}-{self.total_nodes}-{ins[0]}-{ins[1]}")
+            if rs.random() < (0.7 if fn.name.startswith("Fn") else 1.0):
+                self.emit(sc, fn.name, [ins[1], ins[0]], fn.out_kinds, attrs, domain="local")
+                self.feat.add("call_swapped_operands")
 
     # ---- dispatcher
     _WEIGHTS = [
